@@ -139,3 +139,14 @@ func RHandle() H { w(1); return H{} }
 
 //go:noinline
 func PHandle(x H) int { return w(-1) }
+
+// variadic parameters of three kinds (the stub's conditions are compared with every element, one condition after the other)
+
+//go:noinline
+func PVInt(xs ...int) int { return w(len(xs)) - 1 }
+
+//go:noinline
+func PVStr(xs ...string) int { return w(len(xs)) - 1 }
+
+//go:noinline
+func PVPtr(xs ...*S) int { return w(len(xs)) - 1 }
